@@ -190,8 +190,10 @@ def text(n):
         return "break"
     if k == "ContinueStmt":
         return "continue"
-    if k == "CompoundStmt":
+    if k in ("CompoundStmt", "InlineBlock"):
         return "{...}"
+    if k == "InlineLeave":
+        return "return"
     if k == "UnresolvedLookupExpr":
         return n.get("name", "?")
     if k == "CXXDependentScopeMemberExpr":
@@ -604,6 +606,10 @@ def _mk(d, files, srcdir, cached, dig):
     missing = [f for f in files if os.path.abspath(f) not in seen]
     if missing:
         raise AnalysisError("engine source files not reached by the translation unit: %s" % missing)
+    from . import cxinline, inventory
+    tu.meta["inlined"] = sorted(set(cxinline.run(tu, inventory.load()[0])))
+    from . import cxnorm
+    tu.meta["promoted"] = cxnorm.run(tu)
     for f in tu.all_fns():
         if f.body is not None:
             _uniq(f)
